@@ -45,6 +45,21 @@ TPair ==
     /\ picked' = Append(picked, <<Ev.s, Ev.a>>)
     /\ UNCHANGED <<NS, NA, Avail, bs0, pref, bs, rank, per, cur, phase>>
 
+\* n_annotators_per_sample as an array: entry k is the request for the k-th ranked sample, the last entry
+\* applies to all further samples (T.prefs; empty = the integer T.pref for every sample)
+Prefs == IF "prefs" \in DOMAIN T THEN T.prefs ELSE <<>>
+ReqAt(k) == IF Prefs = <<>> THEN pref ELSE Prefs[Min2(k, Len(Prefs))]
+FirstIdx(s) == CHOOSE i \in DOMAIN picked : picked[i][1] = s /\ \A j \in 1..(i - 1) : picked[j][1] # s
+GroupNo(s) == Cardinality({i \in Groups : i <= FirstIdx(s)})
+ReqOf(s) == ReqAt(GroupNo(s))
+Rows == RowsOf(Avail)
+Uniform == \A s, t \in Rows : NAvail(s) = NAvail(t)
+A0 == NAvail(CHOOSE s \in Rows : TRUE)
+RLen == Min2(bs, Cardinality(Rows))
+PerAfter(r) == [i \in 1..RLen |-> Min2(A0, ReqAt(i) + r)]
+RStar == CHOOSE r \in 0..NA : Total(PerAfter(r)) >= bs /\ \A q \in 0..(r - 1) : Total(PerAfter(q)) < bs
+PerStar == PerAfter(RStar)
+
 TFinish ==
     /\ IsEvent("Finish") /\ phase = "rank"
     /\ C("batch-size-is-min-of-requested-and-available-pairs", T.adaptive \/ Len(picked) = bs)
@@ -55,7 +70,15 @@ TFinish ==
            /\ \A s \in RowsOf(Range(picked)) :
                 LET cnt == Cardinality(Taken(s))
                     isLast == picked[Len(picked)][1] = s
-                IN cnt <= NAvail(s) /\ ((~isLast /\ NAvail(s) >= pref) => cnt >= pref)))
+                IN cnt <= NAvail(s) /\ ((~isLast /\ NAvail(s) >= ReqOf(s)) => cnt >= ReqOf(s))))
+    \* when every rankable row offers the same number of annotators the assignment of
+    \* _n_to_assign_annotators is determined by the arguments alone (PerStar): exact
+    /\ C("annotators-per-sample-exact-under-uniform-availability",
+          (pref = 0 \/ ~Uniform \/ ~Contiguous) \/
+          \A s \in RowsOf(Range(picked)) :
+              LET cnt == Cardinality(Taken(s))
+                  isLast == picked[Len(picked)][1] = s
+              IN IF isLast THEN cnt <= PerStar[GroupNo(s)] ELSE cnt = PerStar[GroupNo(s)])
     /\ phase' = "done"
     /\ UNCHANGED <<NS, NA, Avail, bs0, pref, bs, rank, per, picked, cur>>
 
